@@ -1,7 +1,6 @@
 //! Document tree used by the generators, the XML renderer and the reference interpreter.
 //! Node index order == document order (pre-order).
 
-use std::fmt::Write;
 
 pub type Nx = usize;
 
@@ -103,9 +102,49 @@ pub enum Stmt {
     Script(Expr),
     /// raw XML, opaque for the reference
     RawXml(String),
+    /// general send (opaque for the reference)
+    SendX(SendSpec),
+    /// <cancel sendid=.. | sendidexpr=..>
+    CancelX { sendid: Option<String>, sendidexpr: Option<String> },
+    /// <script> with arbitrary text content (character data after XML decoding)
+    ScriptText(String),
+    /// <assign location=..>text</assign>
+    AssignText(String, String),
+    /// <log label=.. expr=..>
+    LogL(String, String),
 }
 
 pub type Block = Vec<Stmt>;
+
+#[derive(Clone, Debug, PartialEq, Eq, Hash, Default)]
+pub struct ParamSpec {
+    pub name: String,
+    pub expr: Option<String>,
+    pub location: Option<String>,
+}
+
+#[derive(Clone, Debug, PartialEq, Eq, Hash, Default)]
+pub struct ContentSpec {
+    pub expr: Option<String>,
+    /// text content (character data after XML decoding)
+    pub text: Option<String>,
+}
+
+/// general <send>: attributes as (name, value-after-XML-decoding)
+#[derive(Clone, Debug, PartialEq, Eq, Hash, Default)]
+pub struct SendSpec {
+    pub attrs: Vec<(String, String)>,
+    pub params: Vec<ParamSpec>,
+    pub content: Option<ContentSpec>,
+}
+
+#[derive(Clone, Debug, PartialEq, Eq, Hash, Default)]
+pub struct InvokeSpec {
+    pub attrs: Vec<(String, String)>,
+    pub params: Vec<ParamSpec>,
+    pub content: Option<ContentSpec>,
+    pub finalize: Option<Block>,
+}
 
 #[derive(Clone, Debug, PartialEq, Eq, Hash)]
 pub struct Trans {
@@ -137,6 +176,9 @@ pub struct Node {
     pub donedata: Option<DoneData>,
     /// raw XML children appended verbatim (invoke etc.), opaque for the reference
     pub raw_children: Vec<String>,
+    pub invokes: Vec<InvokeSpec>,
+    /// <data id>text</data> declarations: (id, character data)
+    pub data_text: Vec<(String, String)>,
 }
 
 #[derive(Clone, Debug, PartialEq, Eq, Hash)]
@@ -165,6 +207,8 @@ impl Doc {
                 data: vec![],
                 donedata: None,
                 raw_children: vec![],
+                invokes: vec![],
+                data_text: vec![],
             }],
             datamodel: "rfsm-expression".into(),
             late_binding: false,
@@ -190,6 +234,8 @@ impl Doc {
             data: vec![],
             donedata: None,
             raw_children: vec![],
+            invokes: vec![],
+            data_text: vec![],
         });
         self.nodes[parent].children.push(ix);
         ix
@@ -326,132 +372,7 @@ impl Doc {
     // ---------------------------------------------------------------- XML
 
     pub fn to_xml(&self) -> String {
-        let mut s = String::new();
-        let root = &self.nodes[0];
-        write!(
-            s,
-            "<scxml xmlns=\"http://www.w3.org/2005/07/scxml\" version=\"1.0\" datamodel=\"{}\" name=\"{}\"",
-            self.datamodel, xml_attr(&self.name)
-        )
-        .unwrap();
-        if self.late_binding {
-            s.push_str(" binding=\"late\"");
-        }
-        if let Some(t) = &root.initial_attr {
-            write!(s, " initial=\"{}\"", self.names(t)).unwrap();
-        }
-        s.push_str(">\n");
-        self.render_data(&mut s, root);
-        if let Some(sc) = &self.script {
-            write!(s, "<script>{}</script>\n", sc.render()).unwrap();
-        }
-        for r in &root.raw_children {
-            s.push_str(r);
-            s.push('\n');
-        }
-        for c in &root.children {
-            self.render_node(&mut s, *c, 1);
-        }
-        s.push_str("</scxml>\n");
-        s
-    }
-
-    fn names(&self, t: &[Nx]) -> String {
-        t.iter()
-            .map(|x| self.nodes[*x].name.clone())
-            .collect::<Vec<_>>()
-            .join(" ")
-    }
-
-    fn render_data(&self, s: &mut String, node: &Node) {
-        if !node.data.is_empty() {
-            s.push_str("<datamodel>");
-            for (id, e) in &node.data {
-                match e {
-                    Some(e) => write!(s, "<data id=\"{}\" expr=\"{}\"/>", id, xml_attr(&e.render())).unwrap(),
-                    None => write!(s, "<data id=\"{}\"/>", id).unwrap(),
-                }
-            }
-            s.push_str("</datamodel>\n");
-        }
-    }
-
-    fn render_node(&self, s: &mut String, n: Nx, depth: usize) {
-        let node = &self.nodes[n];
-        let ind = " ".repeat(depth);
-        let tag = match node.kind {
-            Kind::Root => unreachable!(),
-            Kind::State => "state",
-            Kind::Parallel => "parallel",
-            Kind::Final => "final",
-            Kind::HistShallow | Kind::HistDeep => "history",
-        };
-        write!(s, "{}<{} id=\"{}\"", ind, tag, xml_attr(&node.name)).unwrap();
-        match node.kind {
-            Kind::HistDeep => s.push_str(" type=\"deep\""),
-            Kind::HistShallow => s.push_str(" type=\"shallow\""),
-            _ => {}
-        }
-        if let Some(t) = &node.initial_attr {
-            write!(s, " initial=\"{}\"", self.names(t)).unwrap();
-        }
-        s.push_str(">\n");
-        self.render_data(s, node);
-        if let Some((t, b)) = &node.initial_elem {
-            write!(s, "{} <initial><transition target=\"{}\">", ind, self.names(t)).unwrap();
-            render_block(s, b);
-            s.push_str("</transition></initial>\n");
-        }
-        for b in &node.onentry {
-            write!(s, "{} <onentry>", ind).unwrap();
-            render_block(s, b);
-            s.push_str("</onentry>\n");
-        }
-        for b in &node.onexit {
-            write!(s, "{} <onexit>", ind).unwrap();
-            render_block(s, b);
-            s.push_str("</onexit>\n");
-        }
-        for t in &node.trans {
-            write!(s, "{} <transition", ind).unwrap();
-            if !t.events.is_empty() {
-                write!(s, " event=\"{}\"", xml_attr(&t.events.join(" "))).unwrap();
-            }
-            if let Some(c) = &t.cond {
-                write!(s, " cond=\"{}\"", xml_attr(&c.render())).unwrap();
-            }
-            if !t.targets.is_empty() {
-                write!(s, " target=\"{}\"", self.names(&t.targets)).unwrap();
-            }
-            if t.internal {
-                s.push_str(" type=\"internal\"");
-            }
-            if t.content.is_empty() {
-                s.push_str("/>\n");
-            } else {
-                s.push('>');
-                render_block(s, &t.content);
-                s.push_str("</transition>\n");
-            }
-        }
-        if let Some(dd) = &node.donedata {
-            s.push_str("<donedata>");
-            if let Some(c) = &dd.content {
-                write!(s, "<content expr=\"{}\"/>", xml_attr(&c.render())).unwrap();
-            }
-            for (n, e) in &dd.params {
-                write!(s, "<param name=\"{}\" expr=\"{}\"/>", n, xml_attr(&e.render())).unwrap();
-            }
-            s.push_str("</donedata>\n");
-        }
-        for r in &node.raw_children {
-            s.push_str(r);
-            s.push('\n');
-        }
-        for c in &node.children {
-            self.render_node(s, *c, depth + 1);
-        }
-        write!(s, "{}</{}>\n", ind, tag).unwrap();
+        crate::xmlrender::serialize(&crate::xmlrender::doc_to_tree(self), &crate::xmlrender::Lex::default())
     }
 }
 
@@ -461,79 +382,10 @@ impl Default for Doc {
     }
 }
 
-pub fn xml_attr(v: &str) -> String {
-    v.replace('&', "&amp;")
-        .replace('<', "&lt;")
-        .replace('>', "&gt;")
-        .replace('"', "&quot;")
-}
-
-pub fn render_block(s: &mut String, b: &Block) {
-    for st in b {
-        render_stmt(s, st);
-    }
-}
-
 pub fn mark_src(args: &[String], extra: Option<&Expr>) -> String {
     let mut a: Vec<String> = args.iter().map(|x| format!("'{}'", x)).collect();
     if let Some(e) = extra {
         a.push(e.render());
     }
     format!("mark({})", a.join(","))
-}
-
-fn render_stmt(s: &mut String, st: &Stmt) {
-    match st {
-        // Script text is taken raw by the reader (no entity decoding), so only plain characters here.
-        Stmt::Mark(args) => write!(s, "<script>{}</script>", mark_src(args, None)).unwrap(),
-        Stmt::MarkE(args, e) => {
-            // goes through an attribute, so it can contain any character
-            write!(s, "<log expr=\"{}\"/>", xml_attr(&mark_src(args, Some(e)))).unwrap()
-        }
-        Stmt::Raise(e) => write!(s, "<raise event=\"{}\"/>", xml_attr(e)).unwrap(),
-        Stmt::SendInternal(e) => write!(s, "<send event=\"{}\" target=\"#_internal\"/>", xml_attr(e)).unwrap(),
-        Stmt::SendSelf(e) => write!(s, "<send event=\"{}\"/>", xml_attr(e)).unwrap(),
-        Stmt::If { branches, els } => {
-            for (i, (c, b)) in branches.iter().enumerate() {
-                if i == 0 {
-                    write!(s, "<if cond=\"{}\">", xml_attr(&c.render())).unwrap();
-                } else {
-                    write!(s, "<elseif cond=\"{}\"/>", xml_attr(&c.render())).unwrap();
-                }
-                render_block(s, b);
-            }
-            if let Some(b) = els {
-                s.push_str("<else/>");
-                render_block(s, b);
-            }
-            s.push_str("</if>");
-        }
-        Stmt::Foreach {
-            array,
-            item,
-            index,
-            body,
-        } => {
-            write!(s, "<foreach array=\"{}\" item=\"{}\"", xml_attr(&array.render()), item).unwrap();
-            if let Some(ix) = index {
-                write!(s, " index=\"{}\"", ix).unwrap();
-            }
-            s.push('>');
-            render_block(s, body);
-            s.push_str("</foreach>");
-        }
-        Stmt::Assign(loc, e) => write!(
-            s,
-            "<assign location=\"{}\" expr=\"{}\"/>",
-            xml_attr(loc),
-            xml_attr(&e.render())
-        )
-        .unwrap(),
-        Stmt::Log(e) => write!(s, "<log expr=\"{}\"/>", xml_attr(&e.render())).unwrap(),
-        Stmt::Script(e) => {
-            // attribute-free: raw text; callers must only use plain characters
-            write!(s, "<script>{}</script>", e.render()).unwrap()
-        }
-        Stmt::RawXml(x) => s.push_str(x),
-    }
 }
